@@ -33,10 +33,12 @@ static void client(void* arg)
   {
     int id = c * 8 + i;
     fut[i] = new Future<int>;
+    // abort=2: abort() is requested BEFORE the start (on an idle future): it must not count as an abort of this call
+    if(doAbort == 2 && (id & 1)) { sched_event("\"op\":\"abort_idle\",\"f\":%d", id); fut[i]->abort(); }
     sched_event("\"op\":\"start\",\"f\":%d,\"c\":%d", id, c);
     fut[i]->start(&work, id);
     sched_event("\"op\":\"started\",\"f\":%d,\"c\":%d", id, c);
-    if(doAbort && (id & 1)) { sched_event("\"op\":\"abort\",\"f\":%d", id); fut[i]->abort(); }
+    if(doAbort == 1 && (id & 1)) { sched_event("\"op\":\"abort\",\"f\":%d", id); fut[i]->abort(); }
   }
   if(sleepMs && c == 1) usleep((useconds_t)sleepMs * 1000);
   if(mode == 2)
